@@ -3,10 +3,12 @@
 import json, os, subprocess
 ROOT = os.path.dirname(os.path.dirname(os.path.abspath(__file__)))
 
-TB = ("Trusted: Coq 8.16.1 kernel (vm_compute used for finite sweeps/examples; no native_compute); axioms as Print Assumptions reports them "
+TB = ("Trusted: Coq 8.16.1 kernel (vm_compute used for table theorems, finite sweeps and examples; no native_compute); axioms as Print Assumptions reports them "
       "(only Flocq/Reals' sig_forall_dec, sig_not_dec, functional_extensionality_dep, classic where real numbers occur; integer-only theorems closed); "
       "Flocq's definitions as the meaning of the IEEE terms; the spec-side reading of IEEE 754-2008 in coq/theories; extraction (ExtrOcamlBasic only) + "
-      "ocaml/driver.ml; the Rust harness. The Rust algorithms are compared with the model (bit-for-bit, flag-for-flag differential run on constructed cases, rebuilt from /repo each run), not verified; the constant tables they index are regenerated from the compiled crate each run and proved equal to their closed forms (coq/tables/TABLES.md lists the three restricted ranges).")
+      "ocaml/driver.ml; the Rust harness. The Rust algorithms are compared with the model (bit-for-bit, flag-for-flag differential run on constructed cases, rebuilt from /repo each run), not verified; the constant tables they index are regenerated from the compiled crate each run and proved equal to their closed forms (coq/tables/TABLES.md lists the three restricted ranges; trusted there: the dump hook src/verif_hooks.rs, lib/tables.py, the closed forms of coq/tables/TableSpec.v). "
+      "Where a check has layer-I obligations the translator layerI/rs2v.py and its stated semantics of the Rust subset (layerI/REPORT.md section 3) are trusted for them. Also trusted: ocaml/zhex.ml and ops_table.ml (line protocol), "
+      "lib/xcheck.py's rendering of sampled cases as Coq terms for the extraction cross-check, and the Python generators (they bound what the correspondence run sees; DESIGN section 22 measures them).")
 
 # id -> (claimed?, level category, text, design_ref, technique)  |  (False, reason)
 P = {
@@ -30,13 +32,13 @@ P.update({
  'C16': (True, 'proof', "Theorems: for non-NaN operands every accepted min/max outcome is one of the two operands in canonical form, chosen by the order of the extended reals (magnitudes for _mag, falling back to the signed order), no flag, both operands accepted when they compare equal; one quiet NaN -> the other operand; two quiet NaNs / any sNaN per the NaN rule." + CORR, 'DESIGN.md section 10 (C16)'),
  'C17': (True, 'proof', "Theorems with Flocq's succ/pred: next_up(x) = succ x in the least-exponent representation (or +Inf exactly when x = MAX), next_down = pred, specials, next_down(next_up x) = x in value, no format value strictly between; next_after/next_toward direction by the comparison, flags overflow+inexact iff finite -> Inf, underflow+inexact iff result subnormal or zero." + CORR, 'DESIGN.md section 10 (C17)'),
  'C19': (True, 'proof', "Axiom-free theorems: declet codec = IEEE tables 3.3/3.4 (two independent transcriptions agree on all 1000/1024 entries; exactly 24 redundant declets, decoded as the standard says); dpd_decode(dpd_encode d) = d for every well-formed datum, encode(decode w) = w for every canonical DPD word, field layout per 3.5.2; both conversions total, one outcome, no flag, for all 2^128 inputs." + CORR + " (every declet value in each of the 11 positions, leading digits 0-9, NaN payloads, non-canonical inputs).", 'DESIGN.md section 10 (C19)'),
- 'C20': (True, 'proof', "Axiom-free theorems: the equality of the model is an equivalence over all patterns (NaNs one class, NaN never equals a number, numerically equal iff keys equal); operator bits mutually consistent (<= iff partial_cmp Less or Equal, ...), partial_cmp antisymmetric and transitive; acceptance of hash inputs iff equal values feed equal words. The Hasher (SipHash) and the hash collections themselves are std, not modelled." + CORR + " Hash inputs are observed with a recording Hasher; HashSet/HashMap lookups under equal keys are executed.", 'DESIGN.md section 10 (C20)'),
+ 'C20': (True, 'proof', "Theorems (axiom-free but for the bridge from the integer key to Flocq's real-valued order, which uses the Reals axioms): the equality of the model is an equivalence over all patterns (NaNs one class, NaN never equals a number, numerically equal iff keys equal); operator bits mutually consistent (<= iff partial_cmp Less or Equal, ...), partial_cmp antisymmetric and transitive; acceptance of hash inputs iff equal values feed equal words. The Hasher (SipHash) and the hash collections themselves are std, not modelled." + CORR + " Hash inputs are observed with a recording Hasher; HashSet/HashMap lookups under equal keys are executed.", 'DESIGN.md section 10 (C20)'),
 })
 
 P.update({
  'C12': (True, 'proof', "Axiom-free theorems: NaN patterns read per the standard (payload >= 10^33 and reserved bits as zero); for every flag-taking operation with a NaN operand the accepted outcomes are exactly one canonical quiet NaN per NaN operand (its sign and payload) with invalid iff some operand is signaling and nothing else; exhaustive list of NaN-creating non-NaN operand kinds per operation (result exactly the default quiet NaN + invalid, and no NaN otherwise); copy/negate/abs/copy_sign change bit 127 only for all 2^128 patterns, no flag." + CORR + " (NaN in each operand position x quiet/signaling x payload boundary values x reserved bits).", 'DESIGN.md section 10 (C12)'),
  'C13': (True, 'proof', "Axiom-free theorems: decode/encode of all 2^128 patterns (the three non-canonical clauses stated on explicit bit fields), class returns exactly one of ten classes consistent with the nine is_* predicates (normal iff adjusted exponent >= -6143), every outcome of every computational operation of the model is a canonical encoding, every operation factors through decode (a non-canonical pattern cannot be told from the datum it denotes)." + CORR + " (each non-canonical family in every operand position of every operation, classification thresholds).", 'DESIGN.md section 10 (C13)'),
- 'C15': (True, 'other', "Partial by nature: a theorem about a model cannot exhibit a panic of Rust code the model does not transcribe. What is checked: (1) API registry - every public entry point of the current src/d128.rs / serde.rs is mapped to a harness operation (a new or renamed entry point breaks the obligation); (2) exploration under catch_unwind of every entry point with uniformly random and structured bit patterns in every operand position, all modes incl. none, integer extremes, arbitrary status words, and the string streams, in a debug-assertions build and a release build; (3) every other property's run reports panics too. Model-level totality theorems (the specification is satisfiable for every input and never accepts 'no answer') are in props/C15.v when merged.", 'DESIGN.md section 10 (C15), section 11', 'API registry scan + exhaustive-by-entry-point exploration under catch_unwind (debug and release); model-level totality theorems in Coq'),
+ 'C15': (True, 'other', "Partial by nature: a theorem about a model cannot exhibit a panic of Rust code the model does not transcribe. What is checked: (1) API registry - every public entry point of the current src/d128.rs / serde.rs is mapped to a harness operation (a new or renamed entry point breaks the obligation); (2) exploration under catch_unwind of every entry point with uniformly random and structured bit patterns in every operand position, all modes incl. none, integer extremes, arbitrary status words, and the string streams, in a debug-assertions build and a release build; (3) every other property's run reports panics too. Model-level totality theorems (the specification is satisfiable for every input and never accepts 'no answer') are in props/C15.v (13 theorems, compiled by the check).", 'DESIGN.md section 10 (C15), section 11', 'API registry scan + exhaustive-by-entry-point exploration under catch_unwind (debug and release); model-level totality theorems in Coq'),
 })
 UNDER = "check under construction in this session (framework is being built property by property); will be claimed when its theorems are merged and its correspondence stream is clean"
 for i in range(1, 21):
